@@ -13,6 +13,7 @@ import io
 import json
 import os
 import shutil
+import sys
 import struct
 import tempfile
 
@@ -250,6 +251,18 @@ def gen_cases(rng, tier):
             recs = _gen_records(r, "csvfile", 5)
             cases.append({"kind": "read", "adapter": "csvfile", "records": recs, "layout": [["blank", r.randint(1, 5)]],
                           "selector": text, "form": form, "shuffle": 11})
+    # a grouped record in the MIDDLE of a stream (unpacking it makes the library visit its members' descriptors), with
+    # selectors that resolve fields by type: what a descriptor's fields are does not change along the way
+    for text in ("Type.string == 'src'", "'src' in Type.string", "has_field(r, '_source')", "any(f.name == '_source' for f in fields('string'))",
+                 "Type.datetime.year == 2020"):
+        for form in ("text", "compiled", "interp"):
+            base = [["rec", FAM_B, [V.I(i), V.S("zz"), V.F(0.5), V.B(b"x"), V.I(80)],
+                     {"_generated": ["dt", [2020, 1, 2, 3, 4, 5, 0], "utc", 0], "_source": V.S("src" if i % 2 else "other")}]
+                    for i in range(5)]
+            g = ["grouped", "grp/c10", [["rec", FAM_B, [V.I(50), V.S("q"), V.F(0.5), V.B(b"x"), V.I(80)], base[0][3]],
+                                        ["rec", FAM_N, [V.I(51), V.F(1.0), ["bool", 1], V.S("s")], base[0][3]]]]
+            cases.append({"kind": "read", "adapter": "stream", "records": base[:2] + [g] + base[2:], "layout": [],
+                          "selector": text, "form": form, "shuffle": 3})
     # runs of records that are equal in every declared field and differ only in their metadata, filtered on that metadata
     for adapter in ("avro", "stream", "jsonfile"):
         base = _gen_records(r, adapter, 1)[0]
@@ -274,6 +287,21 @@ def gen_cases(rng, tier):
             recs.append(["grouped", "grp/c10", [recs[0] if recs[0][0] == "rec" else recs[-1]]])
         cases.append({"kind": "thread", "records": recs, "selector": SELECTORS[i % len(SELECTORS)],
                       "engine": r.choice(["interp", "compiled"]), "shuffle": r.randint(0, 2 ** 30)})
+    # the verdict for a record does not depend on what the PROCESS matched before: the same records are judged in two
+    # fresh interpreters, in opposite orders (two types of one name whose identifiers coincide; mixed path flavours)
+    COL1 = ["test/collide", [["varint", "idx"], ["string", "a"], ["varint", "b"]]]
+    COL2 = ["test/collide", [["varint", "idx"], ["varint", "astringb"]]]
+    G0 = {"_generated": ["dt", [2020, 1, 2, 3, 4, 5, 0], "utc", 0]}
+    col = [["rec", COL1, [V.I(0), V.S("abc"), V.I(1)], G0], ["rec", COL2, [V.I(1), V.I(7)], G0],
+           ["rec", COL1, [V.I(2), V.S("x"), V.I(7)], G0], ["rec", COL2, [V.I(3), V.I(1)], G0]]
+    for text in ("Type.varint == 7", "Type.string == 'abc'", "any(f.name == 'b' for f in fields('varint'))", "Type.varint > 5 or r.idx == 0"):
+        for engine in ("interp", "compiled"):
+            cases.append({"kind": "procorder", "records": col, "selector": text, "engine": engine})
+    pth = [["rec", FAM_C, [V.I(i), ["ip", "1.2.3.4"], p_, ["digest", [None, None, None]], V.S("u"), V.S("n")], G0]
+           for i, p_ in enumerate([["path", "posix", V.enc_str("/var/log/syslog")], ["path", "windows", V.enc_str("c:\\tmp\\x")],
+                                   ["path", "posix", V.enc_str("c:/tmp/x")]])]
+    for engine in ("interp", "compiled"):
+        cases.append({"kind": "procorder", "records": pth, "selector": "r.p == 'c:/tmp/x'", "engine": engine})
     # path fields of both flavours compared with a text literal (see SELECTORS): runs of net/c records only
     r = rng.fork("paths")
     for text in [t for t in SELECTORS if "r.p " in t]:
@@ -424,6 +452,10 @@ def _write_stream(recs, layout, path):
         elif isinstance(obj, (bytes, bytearray)):
             info[fr] = ["magic"]
             kinds.append("magic")
+        elif type(obj).__name__ == "GroupedRecord":
+            # a grouped record has no descriptor frame of its own: it needs those of its members
+            info[fr] = ["rec", 0, _idx(obj), sorted({ids[m._desc.identifier] for m in obj.records})]
+            kinds.append("rec")
         else:
             info[fr] = ["rec", ids[obj._desc.identifier], _idx(obj), sorted({ids[i] for i in _nested_ids(obj)})]
             kinds.append("rec")
@@ -605,6 +637,41 @@ def _history(records, form_or_engine, text, seed, maker):
     return fresh, impure, orders, threaded
 
 
+_CHILD = r"""
+import sys, json, warnings
+sys.path.insert(0, %(verif)r); sys.path.insert(0, %(repo)r)
+warnings.simplefilter("ignore")
+from harness import values as V
+from flow.record.selector import CompiledSelector, Selector
+cfg = json.loads(sys.stdin.read())
+recs = [V.build(s) for s in cfg["records"]]
+cls = Selector if cfg["engine"] == "interp" else CompiledSelector
+out = {}
+for i in cfg["order"]:
+    try:
+        out[i] = "t" if cls(cfg["selector"]).match(recs[i]) else "f"
+    except Exception as e:
+        out[i] = "raise:" + type(e).__name__
+print(json.dumps([out[i] for i in range(len(recs))]))
+"""
+
+
+def _run_procorder(case):
+    import subprocess
+    verif = os.path.dirname(os.path.dirname(os.path.dirname(os.path.abspath(__file__))))
+    code = _CHILD % {"verif": verif, "repo": os.environ.get("VERIF_REPO", "/repo")}
+    n = len(case["records"])
+    res = {}
+    for name, order in (("fwd", list(range(n))), ("rev", list(range(n - 1, -1, -1)))):
+        env = dict(os.environ, PYTHONDONTWRITEBYTECODE="1")
+        p = subprocess.run([sys.executable, "-c", code], input=json.dumps(dict(case, order=order)), capture_output=True,
+                           text=True, env=env, timeout=120)
+        if p.returncode != 0:
+            return {"setup_error": "child", "msg": p.stderr[-300:]}
+        res[name] = json.loads(p.stdout.strip().splitlines()[-1])
+    return {"orders_out": res, "fresh": res["fwd"]}
+
+
 def run_real(case):
     from flow.record import RecordReader
     from flow.record.selector import CompiledSelector, Selector, make_selector
@@ -623,6 +690,8 @@ def run_real(case):
         else:
             sel = ["other", repr(ret)]
         return {"sel": sel, "same_object": ret is arg}
+    if k == "procorder":
+        return _run_procorder(case)
     if k == "thread":
         recs = [V.build(rs) for rs in case["records"]]
         cls = Selector if case["engine"] == "interp" else CompiledSelector
@@ -640,7 +709,7 @@ def run_real(case):
             path = os.path.join(d, {"stream": "in.records", "jsonfile": "in.jsonl", "avro": "in.avro",
                                     "csvfile": "in.csv", "sqlite": "in.db"}[adapter])
             try:
-                recs = [V.build_record(rs) for rs in case["records"]]
+                recs = [V.build(rs) for rs in case["records"]]
                 if adapter == "stream":
                     items = _write_stream(recs, case["layout"], path)
                 elif adapter == "jsonfile":
@@ -704,6 +773,13 @@ def oracle(case, obs):
     k = case["kind"]
     if "setup_error" in obs:
         return None
+    if k == "procorder":
+        a, b = obs["orders_out"]["fwd"], obs["orders_out"]["rev"]
+        if a != b:
+            j = next(i for i in range(len(a)) if a[i] != b[i])
+            return (f"match() depends on what the process matched before: {case['selector']!r} ({case['engine']}) on record "
+                    f"{j} gives {a[j]} when the records are judged in order and {b[j]} in reverse order (fresh interpreters)")
+        return None
     if k == "thread":
         return _history_failure(obs)
     if k == "read":
@@ -737,9 +813,13 @@ def model_op(case, obs):
         return None
     if k == "mksel":
         return {"op": "c10.mksel", "kind": case["arg"], "s": case["s"], "force": case["force"]}
+    if k == "procorder":
+        return None
     if k == "thread":
         return {"op": "c10.thread", "engine": case["engine"], "fresh": obs["fresh"], "order": obs["orders"]["shuf"]}
     if k == "read":
+        if any(rs[0] == "grouped" for rs in case["records"]):
+            return None  # grouped records in the stream: real-code oracle only (the model's items are plain records)
         if obs["plain"]["stage"] == "ctor":
             return None  # the reader could not be opened at all (e.g. empty CSV/Avro): nothing to iterate
         idxs = obs["plain"]["idx"]
@@ -797,6 +877,8 @@ def classify(case, obs):
         return "mksel"
     outs = set(obs["fresh"])
     shape = "raises" if outs - {"t", "f"} else "mixed" if outs == {"t", "f"} else "const" if outs else "empty"
+    if k == "procorder":
+        return [f"procorder:{case['engine']}:{shape}"]
     if k == "thread":
         return [f"thread:{case['engine']}:{shape}"]
     b = [f"read:{case['adapter']}:{case['form']}", f"read:{case['adapter']}:{shape}"]
